@@ -70,6 +70,10 @@ def _session(job):
                     inner = os.path.join(src, "sub", "f")
                     with open(inner, "wb") as f:
                         f.write(data)
+                    # files of the same tree that are archived BEFORE the one that fails (and one after it)
+                    for extra in ("a_first.bin", "b_second.bin", "zz_last.bin"):
+                        with open(os.path.join(src, extra), "wb") as f:
+                            f.write(extra.encode() * 40)
                     real_stat = os.stat
 
                     def st(p, *a, **k):
